@@ -317,7 +317,10 @@ def dense(op, in_shape, dtype=torch.complex128):
     for j in range(n):
         e = torch.zeros(n, dtype=dtype)
         e[j] = 1
-        (y,) = op(e.reshape(in_shape))
+        ein = e.reshape(in_shape)
+        (y,) = op(ein)
+        if float(ein.abs().sum()) != 1.0 or ein.reshape(-1)[j] != 1:
+            raise AssertionError(f'forward modified its input tensor (basis vector {j})')
         out_shape = list(y.shape)
         cols.append(y.reshape(-1).to(torch.complex128))
     F = torch.stack(cols, dim=1)
@@ -326,7 +329,10 @@ def dense(op, in_shape, dtype=torch.complex128):
     for i in range(m):
         e = torch.zeros(m, dtype=dtype)
         e[i] = 1
-        (x,) = op.adjoint(e.reshape(out_shape))
+        ein = e.reshape(out_shape)
+        (x,) = op.adjoint(ein)
+        if float(ein.abs().sum()) != 1.0 or ein.reshape(-1)[i] != 1:
+            raise AssertionError(f'adjoint modified its input tensor (basis vector {i})')
         cols.append(x.reshape(-1).to(torch.complex128))
     G = torch.stack(cols, dim=1)
     return F.numpy(), G.numpy(), out_shape
